@@ -67,7 +67,9 @@ type caseSpec struct {
 	Signed       bool   `json:"signed"`        // download: signature verification enabled
 	TrustSignet  string `json:"trust_signet"`  // download: base58 recipient signet
 	Mech         string `json:"mech"`          // "" = strace (download: ptrace stepper) | ptrace = stepper for this case
-	Phase        string `json:"phase"`         // trace | kill | err | readers
+	ContentID    uint64 `json:"content_id"`    // id of the new content (0 = 2); a follow-up operation writes id 3
+	FollowDir    string `json:"follow_dir"`    // phase follow: directory of the killed child whose left-over tree is operated on
+	Phase        string `json:"phase"`         // trace | kill | err | readers | follow
 	Rounds       int    `json:"rounds"`        // readers: alternations
 }
 
@@ -218,7 +220,11 @@ func buildWorld(sp caseSpec, dir string) *world {
 		w.tmp = sp.CrossTmp
 	}
 	d := filepath.Join(w.sb, "d")
-	newC := makeContent(sp.Seed, 2, sp.NewSize)
+	newID := uint64(2)
+	if sp.ContentID != 0 {
+		newID = sp.ContentID
+	}
+	newC := makeContent(sp.Seed, newID, sp.NewSize)
 	var oldC []byte
 	if sp.Old != "absent" {
 		oldC = makeContent(sp.Seed, 1, sp.OldSize)
@@ -259,6 +265,10 @@ func buildWorld(sp caseSpec, dir string) *world {
 			w.old = oldC
 		}
 		w.new = newC // content of target-new.txt (read through the link)
+		if sp.Phase == "follow" {
+			// the follow-up operation switches the link back to the other target
+			w.newLink, w.new = "target-old.txt", makeContent(sp.Seed, 1, sp.OldSize)
+		}
 		w.tempDirs = []string{d}
 	case tFstree:
 		key := fstreeKey(sp)
@@ -332,13 +342,14 @@ func (w *world) oldMode() uint32 {
 // counts strace uses to address a crash point are the same in every run.
 func (w *world) setup() {
 	sp := w.sp
+	follow := sp.Phase == "follow" // re-open the left-over tree of a killed run: create no pre-state
 	must(os.MkdirAll(w.sb, 0o755))
 	must(os.MkdirAll(w.tmp, 0o755))
 	switch sp.Target {
 	case tWriteFile, tCreate, tCopy, tReplace:
 		must(os.MkdirAll(filepath.Dir(w.dest), 0o755))
 		must(os.MkdirAll(w.optsDir, 0o755))
-		if w.old != nil {
+		if w.old != nil && !follow {
 			writeRaw(w.dest, w.old, w.oldMode())
 		}
 		if sp.Target == tCopy || sp.Target == tReplace {
@@ -354,6 +365,9 @@ func (w *world) setup() {
 	case tSymlink:
 		d := filepath.Dir(w.dest)
 		must(os.MkdirAll(d, 0o755))
+		if follow {
+			break
+		}
 		writeRaw(filepath.Join(d, "target-old.txt"), w.payloadB, 0o644)
 		writeRaw(filepath.Join(d, "target-new.txt"), w.payloadA, 0o644)
 		switch sp.Old {
@@ -367,6 +381,9 @@ func (w *world) setup() {
 		fst, err := fstree.NewFSTree("c17", base)
 		must(err)
 		w.fst = fst
+		if follow {
+			break
+		}
 		if sp.ParentExists || w.old != nil {
 			must(os.MkdirAll(filepath.Dir(w.dest), 0o755))
 		}
@@ -392,19 +409,8 @@ func (w *world) setup() {
 			w.reg.AutoUnpack = []string{w.ident}
 		}
 		must(w.reg.Initialize(utils.NewDirStructure(store, 0o755)))
-		switch sp.Target {
-		case tGzip:
-			b := gzipBytes(w.new)
-			if sp.Variant == "corrupt" {
-				b = b[:len(b)*2/3]
-			}
-			writeRaw(w.archive, b, 0o644)
-		case tZip:
-			writeRaw(w.archive, zipBytes(sp), 0o644)
-		case tDownload:
-			if w.old != nil {
-				writeRaw(w.dest, w.old, w.oldMode())
-			}
+		if !follow { // else: archives and destination are whatever the killed run left
+			w.setupStore()
 		}
 		must(w.reg.AddResource(w.ident, updVersion, &updater.Index{Path: "stable.json", AutoDownload: true}, sp.Target != tDownload, true, false))
 		w.reg.SelectVersions()
@@ -428,6 +434,25 @@ func (w *world) atomicOpts() *utils.AtomicFileOptions {
 		o.TempDir = w.optsDir
 	}
 	return o
+}
+
+// setupStore puts the archive / the old destination of an updater case into the storage dir.
+func (w *world) setupStore() {
+	sp := w.sp
+	switch sp.Target {
+	case tGzip:
+		b := gzipBytes(w.new)
+		if sp.Variant == "corrupt" {
+			b = b[:len(b)*2/3]
+		}
+		writeRaw(w.archive, b, 0o644)
+	case tZip:
+		writeRaw(w.archive, zipBytes(sp), 0o644)
+	case tDownload:
+		if w.old != nil {
+			writeRaw(w.dest, w.old, w.oldMode())
+		}
+	}
 }
 
 // chunkedReader hands out the content in small pieces (several write calls).
